@@ -3,3 +3,10 @@ import HitenModel.Props.C01
 import HitenModel.Props.C02
 import HitenModel.Props.C13
 import HitenModel.Props.C16
+import HitenModel.Props.C03
+import HitenModel.Props.C05
+import HitenModel.Props.C15
+import HitenModel.Props.C10
+import HitenModel.Props.C19
+import HitenModel.Props.C20
+import HitenModel.Props.C20_Tree
